@@ -158,6 +158,8 @@ def region_check(ctx, tag, loc, N, M, ns, snaps, seed):
                 res.append(("C15.distribution", f"{tag}:variate {pos}", False,
                             f"raises {r.exc.typename} for a variate of about {x:.4g} (line {getattr(r.exc.node, 'lineno', '?')})"))
                 return res, I0
+            if I.model_unjudged:
+                raise Inconclusive(f"{I.model_unjudged[0]}: the intervals of the variates cannot be read off the decisions (not judged)")
             bs = I.model_bounds.get(ua, [])
             lo = max(((I.model_val(e), e) for kind, e in bs if kind == "lo"), key=lambda t: t[0], default=(0.0, ZERO))
             hi = min(((I.model_val(e), e) for kind, e in bs if kind == "hi"), key=lambda t: t[0], default=(1.0, ONE))
